@@ -490,7 +490,9 @@ func c15roundtrip(out *rec.Out, source, name string, d *schema.Definitions, stat
 
 var c15strings = []string{"a", "Flow_1", "x > 1", "a&b", "<tag>", "q\"uote'", "  padded  ", "line\nbreak", "tab\there", "ünï©ode", "]]>", "", "http://example.org/ns#x", "a:b", "{\"k\":1}", " nbsp", "&amp;",
 	// carriage returns: a parser normalises a RAW \r\n or \r to \n, so a writer has to escape them (&#xD;)
-	"cr\rmid", "{\"note\":\"x\r\ny\"}\r\n", "\rlead"}
+	"cr\rmid", "{\"note\":\"x\r\ny\"}\r\n", "\rlead",
+	// variable references as the olive items write them ($name.path): an item may carry a literal value AND a reference
+	"$c.name", "$a.x.0", "$v"}
 
 func c15str(rng *rec.Rng) string { return c15strings[rng.Intn(len(c15strings))] }
 
